@@ -354,6 +354,27 @@ let rec dec_host (s : string) : hostval =
   | 'R' -> HStruct (List.map (fun p -> match split_top p '=' with [k; v] -> (str_of_string (unhex k), dec_host v) | _ -> failwith "bad struct") (split_top (inner s 2) ','))
   | 'P' -> HPtr (dec_host (inner s 2))
   | 'Q' -> HNilPtr
+  | 'K' ->
+    (* the static struct types of harness/hosttypes.go, as a script may see them: exported fields and
+       unexported fields of readable kinds by value; everything reflection refuses to hand over is null *)
+    let body = inner s 3 in
+    let (nm, cnt) = (match String.index_opt body ',' with
+                     | Some i -> (String.sub body 0 i, String.sub body (i + 1) (String.length body - i - 1))
+                     | None -> failwith "bad static host value") in
+    let f k v = (str_of_string k, v) in
+    let name = HString (str_of_string (unhex nm)) and count = HInt (N0, z_of_string cnt) in
+    let i n = HInt (N0, z_of_string (string_of_int n)) in
+    (match s.[1] with
+     | '1' -> HStruct [f "Name" name; f "Count" count; f "priv" (i 3); f "secret" (HString (str_of_string "s3cr3t"));
+                       f "ratio" (dec_host "F64.4004000000000000"); f "flag" (HBool true)]
+     | '2' -> HStruct [f "Name" name; f "Count" count; f "p" HOther; f "when" HOther; f "inn" HOther; f "i" HOther]
+     | '3' -> HStruct [f "Name" name; f "l" HOther;
+                       f "m" (HMapIface [(str_of_string "a", i 1); (str_of_string "b", HOther); (str_of_string "c", HOther);
+                                          (str_of_string "d", HString (str_of_string "x"))]);
+                       f "s" HOther; f "Count" count]
+     | '4' -> HStruct [f "privInner" HOther; f "Name" name; f "Count" count]
+     | '5' -> HPtr (HStruct [f "ID" count; f "PubInner" HOther; f "Name" name])
+     | _ -> failwith "bad static host value")
   | 'm' | 'o' -> HMapIface []        (* a nil map reads as an empty one *)
   | 'l' | 'y' -> HSlice []           (* a nil slice reads as an empty one *)
   | 'X' -> HIface (dec_host (inner s 2))
